@@ -62,10 +62,6 @@ Definition kwhen (b : bool) (k : known) : list known := if b then [k] else [].
 Definition persisted (d : dworld) (i : N) : bool :=
   existsb (fun x => fst x =? i) (ddata d) || durable_ino (dents d) i.
 
-(* the spec says the rename succeeds *)
-Definition rename_ok (t : sworld) (f g : path) : bool :=
-  match snd (srename t f g) with OOk => true | _ => false end.
-
 Definition parent_eqb (p : path) (d : path) : bool := child_of p d.
 
 (* non-root prefixes of p, p included *)
@@ -248,7 +244,8 @@ Definition kupdate (d d' : dworld) (gh : ghost) (o : op) (x : out) : ghost :=
   | Rename f g =>
       match nget (names t) f with
       | Some (EFile i) =>
-          {| ggone := f :: ggone gh; ggdirs := ggdirs gh; grt := g :: grt gh;
+          {| ggone := if rename_ok t f g then f :: ggone gh else ggone gh; ggdirs := ggdirs gh;
+             grt := if rename_ok t f g then g :: grt gh else grt gh;
              gpren := if clean_rename d gh o then gpren gh ++ [(i, f, g)] else gpren gh;
              ghalf := ghalf gh; gstale := gstale gh; gdirty := dirty' |}
       | _ => {| ggone := ggone gh; ggdirs := ggdirs gh; grt := grt gh; gpren := gpren gh; ghalf := ghalf gh;
